@@ -120,13 +120,15 @@ structure Dev where
   condListAlias : Bool
   deriving DecidableEq, Inhabited
 
-/-- the code as it is: 312106f, e5d206a, fb1d065, 52cf3c4 and 9281d31 repaired all deviations but the
-comparison through float64 -/
-def Dev.current : Dev := ⟨false, false, false, false, true, false⟩
+/-- the code as it is: 312106f, e5d206a, fb1d065, 52cf3c4, 9281d31 and 54cf01b repaired every deviation: the
+code is the documented behaviour (`Dev.current = Dev.none`) -/
+def Dev.current : Dev := ⟨false, false, false, false, false, false⟩
 /-- the code before those commits -/
 def Dev.before : Dev := ⟨true, true, true, true, true, true⟩
 /-- the code after the first four and before 9281d31: a list value of `cond` was the plan's own list -/
 def Dev.beforeCondCopy : Dev := ⟨false, false, false, false, true, true⟩
+/-- the code before 54cf01b (after the other five): numbers were compared through float64 -/
+def Dev.beforeCmpExact : Dev := ⟨false, false, false, false, true, false⟩
 def Dev.none : Dev := ⟨false, false, false, false, false, false⟩
 
 /-- iteration order of a Go map: how the members are visited -/
